@@ -106,11 +106,14 @@ PROPS = {
                               'C01_generated_instructions_are_exact',
                               'C01_pipeline_returns_wellformed_subgraphs_or_raises',
                               'C01_transform_graph_preserves_wf_model',
-                              'C01_pipeline_returns_wf_model_or_raises'],
+                              'C01_pipeline_returns_wf_model_or_raises',
+                              'C01_inserted_tensor_name_is_fresh',
+                              'C01_transform_graph_keeps_tensor_names_unique',
+                              'C01_pipeline_keeps_tensor_names_unique'],
         'rule': GRAPH_RULE,
         'trusted_base': COMMON_TB + GRAPH_TB,
         'assumptions': GRAPH_ASSUME + [
-            'composition IS a theorem: the performer\'s global invariant (op-id maps resolve every pending producer reference exactly) is preserved by every step, the instruction generator only emits exact instructions, hence the whole modelled pipeline maps well-formed subgraphs to well-formed subgraphs or raises; opcode / buffer index ranges and signature entries are part of the theorem (wf_model); NOT a theorem: unique tensor names (fresh-name search; oracle + correspondence E/E2)',
+            'composition IS a theorem: the performer\'s global invariant (op-id maps resolve every pending producer reference exactly) is preserved by every step, the instruction generator only emits exact instructions, hence the whole modelled pipeline maps well-formed subgraphs to well-formed subgraphs or raises; opcode / buffer index ranges and signature entries are part of the theorem (wf_model); unique tensor names are a theorem too (the fresh-name retry loop never exhausts its fuel: pigeonhole; names_uniqueb is evaluated in Coq on every generated input and result)',
             'interpreter allocate/invoke is runtime behaviour: validated by execution in a forked child on every returned model quantized with real statistics'],
     },
     'C02': {
